@@ -82,6 +82,7 @@ class Ctx:
         self.extract_report = {}
         self.build_ok = False       # Props module of this property built
         self.driver_ok = False
+        self.spec_ok = False        # the spec-only driver (declarative counts) built
         self.build_output = ""
         self.obligations = []
         self.discharged = []
@@ -111,6 +112,11 @@ def prepare(ctx, props_modules):
         if not ctx.driver_ok:
             ctx.say("[build] driver FAILED (the model no longer type-checks against the regenerated definitions)")
             ctx.build_output += out[-3000:]
+        rc, out = sh(["lake", "build", "specdriver"], cwd=LEAN)
+        ctx.spec_ok = rc == 0
+        if not ctx.spec_ok:
+            ctx.say("[build] specdriver FAILED")
+            ctx.build_output += out[-2000:]
         # the property's theorems
         ok = True
         for mod in props_modules:
